@@ -59,10 +59,17 @@ def check_call(Runner, tab, lst, table, real=False):
             return out
         r.run_optimizer_for_country = spy
     opts = options.clean(options.preset("ms_example_resilient"))
+    shared = list(lst)          # ONE list object for both calls, as a YAML file with several simulations passes it
     with common.quiet():
+        if not real:
+            # a first call with the same list object: the selection of the second call (judged below) must not depend on it
+            r.run_model_no_trade(title="c15", create_pptx_with_all_countries=False, show_country_figures=False, show_map_figures=False,
+                                 add_map_slide_to_pptx=False, scenario_option=opts, countries_list=shared, return_results=True)
+            first_calls = list(calls)
+            del calls[:]
         world, net_pop, net_pop_fed, results = r.run_model_no_trade(title="c15", create_pptx_with_all_countries=False, show_country_figures=False,
                                                                    show_map_figures=False, add_map_slide_to_pptx=False, scenario_option=opts,
-                                                                   countries_list=list(lst), return_results=True)
+                                                                   countries_list=shared, return_results=True)
     sel = expected_selection(isos, lst)
     pop = {row["iso3"]: float(row["population"]) for _, row in tab.iterrows()}
     name = {row["iso3"]: row["country"] for _, row in tab.iterrows()}
@@ -75,6 +82,9 @@ def check_call(Runner, tab, lst, table, real=False):
     else:
         fr = {iso: fraction_for(idx[iso], table) for iso in sel}
         ran = calls
+    if not real and sorted(first_calls) != sorted(sel):
+        vs.append(violation("selection_rule", dict(key, call="first"), "list %s ran %s on the first call, documented rule selects %s" % (list(lst), sorted(set(first_calls) ^ set(sel))[:8], len(sel)), rp))
+        return vs, None
     if sorted(ran) != sorted(sel):
         vs.append(violation("selection_rule", key, "list %s ran %s, documented rule selects %s" % (list(lst), sorted(set(ran) ^ set(sel))[:8], len(sel)), rp))
         return vs, None
@@ -111,8 +121,9 @@ def run(tier, seed):
     vs = [v for r in res for v in r["v"]]
     cov = {"executions": len(res), "states": sum(r["n"] for r in res), "transitions": sum(r["n"] for r in res),
            "traces_validated_against_impl": len(res), "distinct_outcomes": len({r["agg"] for r in res}),
-           "stubbed_calls": len(jobs), "real_unstubbed_calls": len(real),
-           "bound": {"selection": "every pattern absent / named / '!'-named per country over %s (81 lists: empty, inclusion, exclusion, mixed)" % UNIVERSE,
+           "stubbed_calls": 2 * len(jobs), "real_unstubbed_calls": len(real),
+           "bound": {"history": "every stubbed selection is run twice with the same list object; the second call is judged against the caller's original list",
+                     "selection": "every pattern absent / named / '!'-named per country over %s (81 lists: empty, inclusion, exclusion, mixed)" % UNIVERSE,
                      "fractions": "3 assignment tables over %s + 2 tables in which every third country reports a failed run (NaN)" % (list(FRACTIONS),), "real": [list(r[0]) for r in real]},
            "alphabet": "a state is one selected country row contributing to the aggregate; a transition one per-country step of run_model_no_trade",
            "samples": [{"selection": list(jobs[5][0]), "table": 0}, {"selection": list(jobs[-1][0]), "table": 2}, {"selection": ["USA", "LUX"], "real": True}],
